@@ -1,5 +1,5 @@
 """C13 — Files: trace validation of real histories against the Lsm model + theorems over the model."""
-import wlcheck
+import wlcheck, wl_run, crash_gen
 
 PID = 'C13'
 TAGS = set('files,layout,liveiter,conforms,conformsdel'.split(','))
@@ -24,8 +24,19 @@ IMPORTS = ['LcdbModel.Props.C13']
 TARGETS = ['LcdbModel.Props.C13']
 
 
+def overlap(chk, tier):
+    # garbage collection racing with the foreground: the writer switches logs while the background thread is inside
+    # ldb_versions_apply (slow MANIFEST syncs); every unlink is judged by the Disk monitor (obligation O3), and kill images
+    # taken along the way must still recover every acknowledged write
+    n, nops, pts = (6, 25, 8) if tier == 'quick' else (60, 80, 60)
+    fam = lambda rng, db, img, nops_: crash_gen.history(rng, db, img, nops_, '0', False, pts, force_mode=3)
+    chk.rules.append('overlap histories: bursts of writes with the background thread held inside ldb_versions_apply (6 ms per MANIFEST fsync), so that log switches '
+                     'happen while a flush/compaction result is being installed; journal judged by Disk.Mon (O3: no needed log/table/MANIFEST unlinked) and kill images recovered')
+    wl_run.run_histories(chk, n, nops, TAGS | {'crashkill', 'crashopen'}, 'overlap-histories', family=fam)
+
+
 def run(tier):
-    return wlcheck.run(PID, tier, TAGS, THEOREMS, IMPORTS, TARGETS, journal=True)
+    return wlcheck.run(PID, tier, TAGS, THEOREMS, IMPORTS, TARGETS, journal=True, extra=overlap)
 
 
 def replay(path):
